@@ -427,7 +427,7 @@ theorem simpCk_refines_simp : ∀ fuel : Nat,
 /-- whenever the checked model returns a result, the plain model returns the same result -/
 theorem simplifyCk_refines_simplify (fuel c : Nat) (e e' : Expr) (c' : Nat)
     (h : simplifyCk fuel c e = .ok (e', c')) : simplify fuel c e = .ok (e', c') :=
-  (simpCk_refines_simp fuel).1 [[]] c e (e', c') h
+  (simpCk_refines_simp fuel).1 [[]] _ e (e', c') h
 
 /-- **C02 about the model tied to the code.** For every query the checked model accepts: the plain model
     `simplify` returns that same query `e'`, and `e'` evaluates (deferred execution, every world that is well behaved,
